@@ -28,6 +28,10 @@ pub struct PathMutImpl<'a, P: ?Sized> {
 	/// in which case some disambiguation rules applies.
 	follows_authority: bool,
 
+	/// Determines if the path is part of an URI/IRI reference with an
+	/// authority, in which case it must stay empty or absolute.
+	anchored: bool,
+
 	p: PhantomData<P>,
 }
 
@@ -48,6 +52,7 @@ impl<'a, P: ?Sized + PathImpl> PathMutImpl<'a, P> {
 			start,
 			end,
 			follows_authority,
+			anchored: follows_authority,
 			p: PhantomData,
 		}
 	}
@@ -64,6 +69,7 @@ impl<'a, P: ?Sized + PathImpl> PathMutImpl<'a, P> {
 			start: 0,
 			end,
 			follows_authority: true,
+			anchored: false,
 			p: PhantomData,
 		}
 	}
@@ -77,6 +83,13 @@ impl<'a, P: ?Sized + PathImpl> PathMutImpl<'a, P> {
 	}
 
 	pub fn push(&mut self, segment: &P::Segment) {
+		if self.anchored && self.start == self.end {
+			// VALIDITY: When an authority is present, the path must be
+			//           absolute.
+			replace(self.buffer, self.end..self.end, b"/");
+			self.end += 1;
+		}
+
 		// Disambiguate if the path is empty and one of the following is true:
 		// - `segment` contains a colon and path is a the start.
 		// - `segment` is empty, path is absolute and following an authority.
@@ -124,7 +137,7 @@ impl<'a, P: ?Sized + PathImpl> PathMutImpl<'a, P> {
 	pub fn pop(&mut self) -> bool {
 		let is_empty = self.is_empty();
 
-		if (is_empty && self.is_relative())
+		if (is_empty && self.is_relative() && !self.anchored)
 			|| self.last().map(SegmentImpl::as_bytes) == Some(PARENT_SEGMENT)
 		{
 			self.push(<P::Segment as SegmentImpl>::PARENT);
